@@ -32,7 +32,7 @@ def alphabet(cls, quick):
                "ClassicalGate('g', 1, 2, [x, y, 0, 1, 1, 0, x * y, 2])", "ClassicalGate('m', 1, 1, [x, 2 * x, y, 1])",
                "ClassicalGate('g', 1, 2, [x, y, 0, 1, 1, 0, x * y, 2]).dagger()",
                "ClassicalGate('m', 1, 1, [x, 2 * x, y, 1]).dagger()"]
-        fixed = ["H", "X", "CX", "Ket(0)", "Ket(1, 0)", "Bra(0)", "S", "Rz(0.3)", "Bits(1)", "Copy()"]
+        fixed = ["H", "X", "CX", "Ket(0)", "Ket(1, 0)", "Bra(0)", "S", "Rz(0.3)", "Rz(0.3004)", "Bits(1)", "Copy()"]
         return par, fixed
     par = ["Box('a', Dim(2), Dim(2), [x, y, 1, x * y])", "Box('c', Dim(1), Dim(2), [x ** 2, 1j * y])",
            "Box('b', Dim(2), Dim(3), [x, 0, 1, y, x + y, 2])", "Box('s', Dim(1), Dim(1), [x + 1j * y])",
@@ -216,7 +216,10 @@ def check_jacobian(params):
     if cls == "circuit" and not mixed and d.is_mixed:
         return out
     try:
-        j = d.jacobian(variables, mixed=mixed) if cls == "circuit" else d.jacobian(variables)
+        arg = list(variables)
+        j = d.jacobian(arg, mixed=mixed) if cls == "circuit" else d.jacobian(arg)
+        if arg != variables:
+            out.append((_sig("argument-mutated", params), "jacobian changed the list of variables it was given"))
         jv = j.eval(mixed=mixed) if cls == "circuit" else j.eval()
         jarr = np.asarray(getattr(jv, "array", jv), dtype=object)
         sym = ev(cls, d, mixed)
